@@ -19,7 +19,7 @@ ObsCoarse(c) == IF c \in {"unbalanced", "parse"} THEN "rejected"
                 ELSE c
 Clause(r) ==
   LET o == Outcome(Toks(r)) IN
-  IF o.c = "nopred" THEN (IF ObsCoarse(r.obs.c) \in {"rejected", "undefined"} THEN "class"
+  IF o.c = "nopred" THEN (IF ObsCoarse(r.obs.c) = "undefined" \/ r.obs.c = "unbalanced" \/ (r.obs.c = "parse" /\ ~o.arr) THEN "class"
                           ELSE IF r.obs.c = "value" /\ (SetOf(r.obs.vars) # o.vars \/ SetOf(r.obs.funcs) # o.funcs
                                                         \/ SetOf(r.obs.sufs) # o.sufs) THEN "usage"
                           ELSE "ok")
